@@ -105,6 +105,27 @@ func c01TwoRounds(r *kit.Run) int {
 			w.Propose(rd.members[len(rd.members)-1], rd.id, fmt.Sprintf("same-payload-batch-%d", k), world.SimpleTasks(fmt.Sprintf("sp%d", k), payloads...))
 			drive()
 		}
+		// a participant of the large round only (node 3) posts, under the large round's id and its own
+		// valid signature, a reconstruction broadcast whose records name the SMALL round and its
+		// batch and messages, with made-up values: the sender is authenticated for the round of the
+		// board message alone
+		{
+			small, large := rounds[0], rounds[1]
+			ks := 0
+			if seq[0] != small {
+				ks = 1
+			}
+			var forged []fsmtypes.ReconstructedSignature
+			for i := range payloads {
+				forged = append(forged, fsmtypes.ReconstructedSignature{
+					MessageID: fmt.Sprintf("sp%d-msg%d", ks, i), BatchID: fmt.Sprintf("same-payload-batch-%d", ks),
+					Signature: bytes.Repeat([]byte{0x42}, 96), SrcPayload: payloads[i], DKGRoundID: small.id, Username: w.Nodes[0].Name,
+				})
+			}
+			nd := w.Nodes[3]
+			w.Board.Post(world.SignedMessage(large.id, string(types.SignatureReconstructed), world.MustJSON(forged), nd.Name, nd.KeyPair.Priv, ""))
+			drive()
+		}
 		// every stored and every broadcast signature, under the key of ITS round
 		for k, rd := range seq {
 			prefix := fmt.Sprintf("sp%d", k)
